@@ -11,7 +11,10 @@ SPEC = {
              "SessionManager.RegisterControlConnection -> ClientRegistry.Register (control cap, evict-oldest; `ctrlx`: the registry "
              "itself with stream doubles whose Close() is a gate, so a registration can be stopped inside the Close() of its victim "
              "while others run: caps 0,1,2,5 x occupancy cap-1, cap x 2-3 threads x 1-2 registrations, all interleavings), "
-             "TunnelRegistry.Register, the slot life cycle of the mapping handler (`slot` cases: the handler runs over a wrapper "
+             "TunnelRegistry.Register, the slot counter at full speed (`free slot`: T goroutines acquire / hold / release through "
+             "acquireConnectionSlot and releaseConnectionSlot 60 000 times each - the windows inside them have no injectable call; "
+             "`free race`: the same race through the real paths, tunnel close vs arriving connection at limit-1 occupancy with a "
+             "swept delay, then arrivals until one is refused), the slot life cycle of the mapping handler (`slot` cases: the handler runs over a wrapper "
              "of its real tunnel manager whose RegisterTunnel is a gate before and after, so Tunnel.Close can land before the "
              "registration, in the window before Tunnel.Start, or after the start; all schedules of steps and closes of 2 "
              "connections of length 6 (thorough 7), histories with 1-2 tunnels closed at each point of their life followed by "
@@ -48,6 +51,7 @@ SPEC = {
         "TunnelRegistry.Register, acquireConnectionSlot, releaseConnectionSlot, connectionLimit, CountActiveByTargetClient and call "
         "skeletons with lock/defer/guarded-field facts of handleConnection, CreateConnectionCode, ActivateConnectionCode, "
         "ListByTargetClient, ConnectionCodeRepository.Create/GetByID/GetByCode regenerated into Gen/Limits.lean and pinned by theorems",
+        "shims BaseMappingHandler.VerifAcquireSlot / VerifReleaseSlot (the two unexported halves of the slot protocol)",
         "shim BaseMappingHandler.VerifSetTunnelManager (installs the gated wrapper of the handler's own tunnel manager)",
         "harness /verif/harness/c17: gate, gated storage and repository wrappers, fake reader / client / adapter, goroutine-dump "
         "recognition of a thread parked in sync.Mutex/RWMutex of repo code (three consecutive dumps); one shim only: "
@@ -71,6 +75,10 @@ SPEC = {
         "code quota: the model takes the count from the index read (GetList); the n record reads that follow are no-ops. A release "
         "(delete) that lands between the index read and the record read of the same code makes the implementation count one fewer "
         "than the model (still >= the codes present at the check, so safe); such schedules are not generated",
+        "slot counter: proved at instruction granularity with releases racing admissions (C17_ctr_main / C17_ctr_exact, release = "
+        "one atomic Add); the harness reaches the windows inside acquire / release only by parallel stress - a regression there "
+        "is found with overwhelming probability, not with certainty (pins flow_acquireConnectionSlot / flow_releaseConnectionSlot "
+        "break deterministically)",
         "mapping handler: the harness cannot stop between Load and CompareAndSwap; that granularity is covered by the theorem "
         "C17_mapCas and by the pinned control skeleton of acquireConnectionSlot, and exercised only by the free-running cases",
         "release of a mapping slot is asynchronous (the tunnel winds down on its own goroutines): the harness waits up to 2 s for "
